@@ -140,6 +140,9 @@ class MulticlassCarver(BaseCarver):
         X_dev: DataFrame = None,
         y_dev: Series = None,
     ) -> None:
+        # checking for previous fits before anything is modified
+        self._check_is_not_fitted()
+
         # preparing datasets and checking for wrong values
         x_copy, y_copy, x_dev_copy, y_dev_copy = self._prepare_data(X, y, X_dev, y_dev)
 
